@@ -204,6 +204,40 @@ fn judge_cmplx(st: &mut Stats, rng: &mut Rng, du: usize, dv: usize) {
     st.nontrivial(h);
 }
 
+/// dividend and divisor are the SAME object: p / p is (1, 0) for a non-zero p and an error for the empty / all-zero p
+fn judge_self_division(st: &mut Stats, rng: &mut Rng) {
+    st.next_case();
+    let n = rng.usize(0, 7);
+    let zero = rng.chance(0.4);
+    let mut c: Vec<Rat> = (0..n).map(|_| if zero { Rat::ZERO } else { Rat::int(rng.int(-5, 5)) }).collect();
+    // (a divisor with a zero LEADING coefficient that is not identically zero is outside the property)
+    if !zero && n > 0 && c[n - 1].is_zero() { c[n - 1] = Rat::int(2); }
+    let all_zero = c.iter().all(|v| v.is_zero());
+    let p = Polynomial::new(c.clone());
+    st.eval();
+    match catch(|| p.polydiv(&p)) {
+        Outcome::Ok(Err(_)) => if !all_zero { if degree_of(&c, Rat::ZERO) == Some(c.len() - 1) { st.violation("C12:polydiv:Rat:self-division", format!("p.polydiv(&p) is an error for the non-zero p = {:?}", c)); } } else { st.count("self-division:zero-rejected"); },
+        Outcome::Ok(Ok((q, r))) => {
+            let (qc, rc) = (coeffs(&q), coeffs(&r));
+            if all_zero { st.violation("C12:polydiv:Rat:zero-divisor-accepted", format!("p.polydiv(&p) with the all-zero/empty p = {:?} (one object on both sides) returned q = {:?}, r = {:?} instead of an error", c, qc, rc)); }
+            else if degree_of(&qc, Rat::ZERO) != Some(0) || qc[0] != Rat::ONE || degree_of(&rc, Rat::ZERO).is_some() { st.violation("C12:polydiv:Rat:self-division", format!("p = {:?}: p.polydiv(&p) = ({:?}, {:?}), expected (1, 0)", c, qc, rc)); }
+        }
+        Outcome::Overflow => {}
+        o => st.violation("C12:polydiv:Rat:panic", format!("p.polydiv(&p) with p = {:?}: {}", c, o.describe())),
+    }
+    // f64, including -0.0 coefficients
+    let mut cf: Vec<f64> = (0..n).map(|_| if zero { if rng.bool() { 0.0 } else { -0.0 } } else { rng.int(-5, 5) as f64 }).collect();
+    if !zero && n > 0 && cf[n - 1] == 0.0 { cf[n - 1] = 2.0; }
+    let pf = Polynomial::new(cf.clone());
+    st.eval();
+    match catch(|| pf.polydiv(&pf)) {
+        Outcome::Ok(Ok((q, r))) => if cf.iter().all(|v| *v == 0.0) { st.violation("C12:polydiv:f64:zero-divisor-accepted", format!("p.polydiv(&p) with the all-zero/empty p = {:?} returned q = {:?}, r = {:?} instead of an error", cf, coeffs(&q), coeffs(&r))); },
+        Outcome::Ok(Err(_)) | Outcome::Overflow => {}
+        o => st.violation("C12:polydiv:f64:panic", format!("p.polydiv(&p) with p = {:?}: {}", cf, o.describe())),
+    }
+    st.count("self-division-cases");
+}
+
 /// empty / all-zero divisors must be reported as Err (never panic), for every dividend
 fn judge_zero_divisor(st: &mut Stats, rng: &mut Rng) {
     st.next_case();
@@ -244,7 +278,7 @@ pub fn run(ctx: &Ctx) -> Report {
             judge_exact::<CRat>(st, rng, du, dv, &|r| CRat::new(Rat::int(r.int(-5, 5)), Rat::int(r.int(-5, 5))), k % 3 == 1);
             judge_f64(st, rng, du, dv, k % 4);
             judge_cmplx(st, rng, du, dv);
-            if k % 4 == 0 { judge_zero_divisor(st, rng); }
+            if k % 4 == 0 { judge_zero_divisor(st, rng); judge_self_division(st, rng); }
         }
     });
     let mut rep = Report::new(stats,
